@@ -10,7 +10,7 @@ PROP = dict(
         "statime_wire::TlvSet::{deserialize,serialize,tlvs}, TlvSetIterator::next, Tlv::{serialize,deserialize}, TlvSetBuilder::{add,build}, TlvType::{from_primitive,to_primitive}",
         "statime_wire::{Timestamp,TimeInterval,PortIdentity,ClockIdentity,ClockQuality,ClockAccuracy,TimeSource,ManagementAction} codecs",
     ],
-    bounds="parse direction: per message type (first octet concrete: messageType, sdoId high nibble 0), all remaining bytes unstructured, symbolic length <= header+body+12 (<= 64): all TLV chains that fit; undefined message types: U(64); "
+    bounds="parse direction: per message type (first octet concrete: messageType, sdoId high nibble 0), all remaining bytes unstructured, symbolic length <= header+body+12 (<= 64): all TLV chains that fit; "
            "build direction: each of the ten body types with every public field symbolic (header: all 19 fields), a TlvSet built with TlvSetBuilder from 0, 1 or 2 TLVs, each with a symbolic type "
            "(7 named types + Reserved/Experimental/Legacy payload ranges) and a symbolic value of symbolic length 0..=4",
     outside="fully unstructured first octet (sdoId high nibble != 0 in the parse direction; the build direction covers all sdoId values): the unstructured U(52) run (c41_parse_u52, not registered) did not finish in 25 min; byte strings longer than 64 bytes and TLV chains longer than 12 bytes (property text: up to 4096 bytes); TLV values longer than 4 bytes; non-canonical enum payloads that the type system allows but that alias another "
@@ -26,8 +26,6 @@ PROP = dict(
         H(ST, "c41", "c41_parse_" + k, "%s-typed datagrams (first octet fixed, sdoId high nibble 0), every other byte and the length symbolic (<= 34+body+12, capped at 64): Ok(m) => serialize writes messageLength bytes equal to the input on all defined bits "
                                         "(reserved bits zero), header fields at their wire offsets, TLV iterator walks exactly the raw suffix; no panic" % n,
           tier=("quick" if k in ("sync",) else "thorough"), timeout=900) for k, n in _kinds
-    ] + [
-        H(ST, "c41", "c41_parse_badtype", "U(64) with an undefined messageType nibble: rejected, no panic", timeout=600),
     ] + [
         H(ST, "c41", "c41_build_" + k, "%s body, symbolic header/body/TLVs: serialise (length, messageLength, TLV headers at their offsets) and parse back to an equal message; TLVs iterate in order" % n,
           tier=("quick" if k in _quick_kinds else "thorough"), timeout=900) for k, n in _kinds
